@@ -1762,6 +1762,9 @@ def analyse(chk):
     _analyse_own(chk)
     chk.guard(lambda c_: core.include_findings(c_, 'C03', files=['ciderpress/dft/settings.py', 'ciderpress/dft/feat_normalizer.py'], rules=['ueg-deg', 'norm-usp'],
                                                why='UEG formulas must scale with the density as the declared powers say (DESIGN C13-2)'))
+    chk.guard(lambda c_: core.include_findings(c_, 'C07', files=['ciderpress/dft/settings.py'], rules=['expnt'],
+                                               why='the closed-form UEG integrals use the nspin=1 exponent; the features of a uniform density computed per '
+                                                   'spin channel agree with them only if the nspin=2 exponent is the nspin=1 one at the doubled channel'))
 
 
 def _memoise_ueg_const(text):
@@ -1778,6 +1781,8 @@ def _memoise_ueg_const(text):
 def mutants(tree):
     M = Mutant
     return [
+        M("GGA exponent: the total-density branch loses 2^(2/3)", ST, "        B = np.pi / 2 ** (2.0 / 3) * a0\n", "        B = np.pi * a0 / 2\n",
+          expect="via-C07"),
         M("VK.ueg_vector reads theta_params[2] unguarded", ST,
           "        a0t = self.theta_params[0]\n        if self.sl_level == \"MGGA\":\n            t0t = self.theta_params[2]\n        else:\n            t0t = self.theta_params[1]\n        rho_mult = self._ueg_rho_mult(rho)\n        expnt_theta",
           "        a0t = self.theta_params[0]\n        t0t = self.theta_params[2]\n        rho_mult = self._ueg_rho_mult(rho)\n        expnt_theta",
